@@ -16,7 +16,7 @@ header flag combinations; boundary alphabets for addresses, texts and identifier
 from mc import env  # noqa: F401
 from mc import par
 from mc.report import Report, Acc, exc_sig
-from mc.hist import scramble
+from mc.hist import scramble, observe
 
 import itertools
 
@@ -194,6 +194,12 @@ def check_tms(acc, c, sample=False):
         if b2 != b:
             acc.violation("tms_reserialised_octets_differ", {**cc, "again": bytes(b2[:80]).hex()})
             outcome = "bytes"
+        else:
+            # looking at the parsed PDU (repr, str, ==, len, hash) between two serialisations must not change it
+            observe(p, light=True)
+            if p.as_bytes() != b:
+                acc.violation("tms_reserialised_octets_differ_after_the_pdu_was_looked_at", cc)
+                outcome = "bytes"
     except Exception as e:
         acc.violation("exception_tms_compare:" + exc_sig(e), cc, repr(e))
         outcome = "exception"
@@ -355,6 +361,11 @@ def check_ars(acc, c, sample=False):
         if b2 != b:
             acc.violation("ars_reserialised_octets_differ", {**cc, "again": bytes(b2[:80]).hex()})
             outcome = "bytes"
+        else:
+            observe(p, light=True)
+            if p.as_bytes() != b:
+                acc.violation("ars_reserialised_octets_differ_after_the_pdu_was_looked_at", cc)
+                outcome = "bytes"
     except Exception as e:
         acc.violation("exception_ars_compare:" + exc_sig(e), cc, repr(e))
         outcome = "exception"
